@@ -2,13 +2,11 @@
    coordinate-level product coo_gram of the stored triples equals the MATRIX product of the denotations, for every COO matrix
    (repeated positions allowed: den_coo sums them, as coo_matrix.toarray / the CSR conversion inside the product do). *)
 From Coq Require Import List Arith Lia Bool Ring.
-From PV Require Import Base.Index Base.Sum Np.Array Model.Sparse Model.Repr Model.C01Unique Model.C01Coo Model.C14Nvecs Model.C14Gram
+From PV Require Import Base.Index Base.Sum Np.Array Model.Sparse Model.Repr Model.C01Unique Model.C01Coo Model.C14Nvecs Model.C14Gram Model.C14SpPath
                        Proofs.C14Sums Proofs.C14Split Proofs.C14GramSp Proofs.C14GramT.
 Import ListNotations.
 
-(* (row, column, value) triples of a COO matrix *)
-Definition coo_triples {V} (C : coo V) : list (nat * nat * V) :=
-  map (fun e => (nth 0 (fst e) 0, nth 1 (fst e) 0, snd e)) (coo_entries C).
+(* coo_triples (the (row, column, value) triples of a COO matrix) is defined in Model/C14SpPath.v *)
 
 Section Coo.
 Variable V : Type.
